@@ -11,6 +11,10 @@ CLAIMED = {
   text="Coq theorems (all closed under the global context, no axioms) over the model of edges.rs / patches.rs / raster3.rs / indices.rs: the edge table is strictly sorted with exact multiplicities and every face maps to its three edges; boundary-loop extraction terminates within |boundary edges|+1 steps per loop for EVERY edge list and consumes every boundary edge exactly once; under even boundary degree (checked on every explored mesh) every loop is a closed vertex cycle joined by the consumed edges; the patch decomposition is a partition and two faces share a patch iff they are connected through shared edges, for every hash-iteration oracle; voxel clusters partition the set and index chaining consumes each pair exactly once, always terminating; box table consistently wound/closed with outward normals for all positive dimensions; cylinder outward for all steps >= 3 (winding by complete computation for steps 3..64). Tie: exact differential comparison with the implementation (loops, tables, chains exactly; patches/clusters as sets under two oracles) and regeneration of the box tables from the Rust source.",
   note="No axioms for the discrete theorems; generator geometry over exact reals (Coq Reals axioms). HashSet order modelled as an arbitrary pick oracle. Even-degree of boundary vertices is a hypothesis of the closed-cycle theorem, evaluated by the checker on every mesh. Cluster 26-connectivity maximality is checked by oracle per run, not proved.",
   technique="Rocq proof by induction/invariants over fuelled graph algorithms with order oracles + exact differential correspondence"),
+ "C14": dict(
+  text="Coq theorems (closed under the global context): Add/Remove/Keep through mutate, mutate_pass_list and near_mesh are union/difference/intersection with the set of faces satisfying a cache-free per-face criterion, for EVERY iteration order of the selection HashSet and whatever the per-vertex cache already holds (cache invariant); create_from_indices keeps exactly the used vertices and rebuilds every selected triangle with the same vertices in the same order. Tie: the selection after every step of random chains is compared with the implementation as a set (4 in-process runs, model under two orders), geometry facts supplied cache-free through the public API; create_from_indices compared exactly.",
+  note="No axioms. The geometric facts (projection within tolerance, angle between normals) are oracles of the model (parry through engeom's API; C02). Empty selections cannot become a mesh (parry rejects an empty TriMesh).",
+  technique="Rocq proof (cache invariant, set algebra for every iteration order) + differential correspondence"),
  "C16": dict(
   text="Machine-checked Coq theorems over the model of line_profiles/measurement/dimension/surface_deviation/point_cloud/tolerance_map: deviation magnitude, sign and reconstruction for all points; extremes and zone after every construct/push history; parallel-vector invariant and reject-is-noop for every point-cloud history; tolerance-map lookup spec for every sorted table. The model is tied to /repo on every run by differential correspondence (model evaluated at binary64 inside coqc against the compiled implementation); property oracles on the implementation's outputs produce replays.",
   note="Theorems over exact reals (" + REALS + "); rounding modelled not verified; the closest-point query feeding the deviation is an input (C02). Model hand-written; correspondence is differential testing on generated cases.",
